@@ -22,6 +22,8 @@ CLAIMS = {
          "bounded by results, keys and one-byte values; hash model instead of runtime maphash"),
  "C09": ("bounded symbolic execution of Projection.Project/Key.Less/SortKeys over symbolic observation histories; the comparison is checked against a reference lexicographic order computed from the history (rank of first observation per field, bytewise, list position, numeric), and irreflexivity/asymmetry/totality/transitivity are asserted on all pairs and triples",
          "bounded by number of results and value alphabet; 'num' on a concrete list of strings"),
+ "C10": ("every finite float64 against the scale the real CommonScale chooses (its threshold tables are built by the package's own init code, executed by the engine): the quotient that Format prints is compared with exact decimal rounding boundaries by cvc5 floating-point queries; shared scales against the smallest non-zero magnitude",
+         "AppendFloat is modelled by its rounding contract (constants computed in exact rational arithmetic); NoOpScaler's shortest formatting and the printed digits themselves are outside"),
  "C19": ("partial: everything before SQL. Bounded symbolic execution of query-word parsing, per-key term merging (denotation of the merged part at a symbolic probe value equals the conjunction of the operands), the generated subselect templates evaluated on a symbolic record, shell-style word splitting, the front end's real quoting function, and the legacy printer/reader round trip",
          "NOT covered: execution of the SQL by sqlite3/MySQL, joins, listing counts/order/limit, HTTP (cgo/network code cannot be executed symbolically); bounded by word/value lengths"),
 }
